@@ -330,7 +330,7 @@ theorem RStep.evWarn (w : World) (t : Nat) : RStep R cyc noAdd w (ev w (.warnOve
 
 /-- From the chosen .do file to the recorded result. -/
 theorem script_phase (hR : 0 < R) {E : Engine} (hE : ESpec R E) (d : Defects) (cx : Ctx) (hRid : cx.runid = R)
-    (hcr : cx.crash = none) (hcyc : cx.cycles = cyc) {t : Nat} (ht : t ∉ cyc) (sf : Rec) (hsf : WFrec R sf)
+    (hcr : cx.crash = none) (hcyc : ∀ x ∈ cyc, x ∈ cx.cycles) {t : Nat} (ht : t ∉ cyc) (sf : Rec) (hsf : WFrec R sf)
     (hck : isCheckedR sf R = false) (w3 : World) (dof : Nat)
     (hinv : RInv R cyc w3) (ho : Open R w3 t) (hdr : dof ∈ w3.rules t) (hdx : existsF w3 dof = true)
     (hrows : ∀ row ∈ w3.deps, row.target = t → row.deleteMe = false →
@@ -400,7 +400,7 @@ theorem existsF_of_readStamp {w : World} {t : Nat} (h : (readStamp w t != .missi
 theorem Open.rowEq' {w w' : World} {t : Nat} (ho : Open R w t) (h : RowEq w w') : Open R w' t := ho.rowEq h
 
 theorem startSelf_spec (hR : 0 < R) {E : Engine} (hE : ESpec R E) (d : Defects) (cx : Ctx) (hRid : cx.runid = R)
-    (hcr : cx.crash = none) (hcyc : cx.cycles = cyc) {t : Nat} (ht : t ∉ cyc) (sf0 : Rec) (hsf : WFrec R sf0)
+    (hcr : cx.crash = none) (hcyc : ∀ x ∈ cyc, x ∈ cx.cycles) {t : Nat} (ht : t ∉ cyc) (sf0 : Rec) (hsf : WFrec R sf0)
     (w1 : World) (hov0 : sf0.isOverride = true → existsF w1 t = true → sf0.isGenerated = true)
     (hck0 : isCheckedR sf0 R = false) (hinv : RInv R cyc w1)
     (ho : Open R w1 t) : JobPost R cyc t w1 (startSelf E d cx t sf0 w1) := by
